@@ -224,6 +224,17 @@ func (fc *FnCtx) externKeys(fn *types.Func, recvExpr ast.Expr) []string {
 
 func (fc *FnCtx) havocCall(st *State, call *ast.CallExpr, what string) []Val {
 	fc.unmodelled[what] = true
+	if fn, _ := fc.calleeOf(call); fn != nil && fn.Pkg() != nil {
+		pkgPath, name := funcKey(fn)
+		if cls := primitiveEffects[pkgPath+"."+name]; cls == "fswrite" {
+			fc.havocWrites(st)
+		} else if fc.w.reachesEffect(pkgPath+"::"+name, "fswrite") || fc.w.reachesEffect(pkgPath+"::"+name, "selfupdate") {
+			fc.havocWrites(st)
+		}
+		if cls := primitiveEffects[pkgPath+"."+name]; cls == "exit" {
+			st.env["$outcome"] = Val{T: "exit", S: SOpaque}
+		}
+	}
 	for _, a := range call.Args {
 		_ = fc.tr(st, a)
 	}
@@ -522,6 +533,12 @@ func (fc *FnCtx) trContractCall2(st *State, call *ast.CallExpr, name string) Val
 		case "scanLines":
 			return fc.readKey(st, v.Rec+".lines", types.NewSlice(types.Typ[types.String]))
 		}
+	case "fsWrites":
+		return fc.fsWrites(st)
+	case "lastWritePath":
+		return fc.readKey(st, "ghost.lastWritePath", types.Typ[types.String])
+	case "lastWriteData":
+		return fc.readKey(st, "ghost.lastWriteData", types.Typ[types.String])
 	case "mapHas":
 		m := fc.tr(st, call.Args[0])
 		k := fc.tr(st, call.Args[1])
@@ -645,13 +662,25 @@ func (fc *FnCtx) callByContract(st *State, call *ast.CallExpr, fn *types.Func, r
 	pre := st.clone()
 	fc.oldEnv, fc.oldFresh = pre.env, pre.fresh
 	// modifies
+	declaresWrites := false
 	for _, cl := range c.clauses("modifies") {
 		for _, path := range strings.Split(cl.Text, ",") {
 			path = strings.TrimSpace(path)
 			if path == "" {
 				continue
 			}
+			if path == "fsWrites" {
+				declaresWrites = true
+				fc.havocWrites(st)
+				continue
+			}
 			fc.havocPath(st, scope, path)
+		}
+	}
+	if !c.Extern && !declaresWrites {
+		pk, nm := funcKey(fn)
+		if fc.w.reachesEffect(pk+"::"+nm, "fswrite") && fc.dry == 0 {
+			fc.errorf("%s: callee %s can write files but its contract has no `modifies fsWrites`", fc.pos(call), nm)
 		}
 	}
 	// results
